@@ -3,19 +3,6 @@
 (* store after it) and the P-layer's final answers.                                                                      *)
 EXTENDS LoadLibMC, Json
 VARIABLE hist
-Pairs(seq) == [i \in 1..Len(seq) |-> [n |-> seq[i].n, d |-> seq[i].d]]
-Proj(s) == [blocks |-> Pairs(s.blocks), links |-> s.links, mods |-> Pairs(s.mods),
-            cites |-> SetToSortSeq(s.cites, LAMBDA a, b : a.d < b.d),
-            volR |-> Pairs(s.volR), volG |-> [i \in 1..Len(s.volG) |-> [n |-> s.volG[i].n, d |-> s.volG[i].d, named |-> s.volG[i].named]],
-            tmpl |-> Pairs(s.tmpl), err |-> s.err]
-Label == IF pc = "idle" THEN (LET f == Head(queue) IN IF Parsed(cfg.mode, f) THEN "open" ELSE IF f.user THEN "error" ELSE "skip")
-         ELSE IF cur.kind = "bib" THEN "end"
-         ELSE IF cur.kind = "bld" THEN (IF si < Len(cur.secs) THEN "bldsec" ELSE "end")
-         ELSE IF ph = "new" /\ si < Len(cur.secs) THEN (IF cur.secs[si + 1].t = "other" THEN "new_other" ELSE "new")
-         ELSE IF ph = "fin" THEN "fin"
-         ELSE IF ph = "new" THEN "finempty"
-         ELSE "end"
-FileName == IF pc = "idle" THEN Head(queue).name ELSE cur.name
 XInit == Init /\ hist = <<>>
 XNext == Next /\ hist' = Append(hist, [op |-> Label, file |-> FileName, st |-> Proj(st')])
 XSpec == XInit /\ [][XNext]_<<vars, hist>>
@@ -23,5 +10,5 @@ AllF == AllFiles(cfg)
 Exp == [lastlink |-> [nm \in {"A", "B"} |-> PLastLink(AllF, nm)],
         effblock |-> [nm \in {"A", "B", "C"} |-> IF \E b \in PBlocks(AllF) : b.n = nm THEN (CHOOSE b \in PBlocks(AllF) : b.n = nm).d ELSE 0],
         order |-> PBlockOrder(AllF), err |-> PErr(cfg, Len(POrder(cfg)))]
-ExportInv == Done => PrintT(<<"CASE", ToJson([cfg |-> cfg, hist |-> hist, exp |-> Exp])>>)
+ExportInv == Done => PrintT(<<"CASE", ToJson([cfg |-> cfg, hist |-> hist, exp |-> Exp, idrisk |-> risk])>>)
 =============================================================================
